@@ -11,10 +11,12 @@ All theorems are for EVERY such script.
 namespace Mpire.C11
 open Mpire.Worker Mpire.Proofs.Worker
 
-/-- In a successful call the user-function invocations of an instance are `init? task+ exit?`, or none at all. -/
+/-- In a successful call the user-function invocations of an instance are `init? task+ exit?`, or none at all
+(`posLifespan`: the lifespan is never 0 — `worker_lifespan` is validated to be a positive integer; with lifespan 0
+the instance would run `worker_exit` without having run any task). -/
 theorem instance_shape (p : Params) (env : Env) (items : List Item) (hok : allOk items = true) (henv : okEnv env)
-    (hh : sameHooks p items = true) : Shape (userActs (run p env items)) :=
-  shape p env items hok henv hh
+    (hh : sameHooks p items = true) (hpos : posLifespan p items = true) : Shape (userActs (run p env items)) :=
+  shape p env items hok henv hh hpos
 
 /-- `worker_init` runs iff it is configured and the instance executes at least one task. -/
 theorem init_iff_work (p : Params) (env : Env) (items : List Item) (hok : allOk items = true) (henv : okEnv env)
@@ -25,20 +27,23 @@ theorem init_iff_work (p : Params) (env : Env) (items : List Item) (hok : allOk 
 /-- At shutdown (the script ends with the poison pill — whether or not the lifespan ended the instance before it)
 `worker_exit` runs iff it is configured and the instance executed at least one task. -/
 theorem exit_iff_work_at_shutdown (p : Params) (env : Env) (pre : List Item) (hok : allOk pre = true) (henv : okEnv env)
-    (hh : sameHooks p pre = true) :
+    (hh : sameHooks p pre = true) (hpos : posLifespan p pre = true) :
     ((Kind.exit, 0) ∈ userActs (run p env (pre ++ [.pill])) ↔
       p.hasExit = true ∧ taskIds (run p env (pre ++ [.pill])) ≠ []) :=
-  Mpire.Proofs.Worker.exit_iff_work_at_shutdown p env pre hok henv hh
+  Mpire.Proofs.Worker.exit_iff_work_at_shutdown p env pre hok henv hh hpos
 
-/-- One exit result is shipped per `worker_exit` invocation that returned (any script, any failures elsewhere). -/
-theorem exit_results_conserved (p : Params) (env : Env) (items : List Item) (henv : env.exitOut = .ok) :
+/-- One exit result is shipped per `worker_exit` invocation that returned (any script, any failures elsewhere;
+`noExitJob`: no chunk or apply task carries the job id reserved for the exit function — real job ids are ≥ 0). -/
+theorem exit_results_conserved (p : Params) (env : Env) (items : List Item) (henv : env.exitOut = .ok)
+    (hj : noExitJob items = true) :
     exitResults (run p env items) = (userActs (run p env items)).count (Kind.exit, 0) :=
-  Mpire.Proofs.Worker.exit_results_conserved p env items henv
+  Mpire.Proofs.Worker.exit_results_conserved p env items henv hj
 
 /-- Every task an instance executes has its result shipped exactly once, in execution order. -/
-theorem results_sent_once (p : Params) (env : Env) (items : List Item) (hok : allOk items = true) (henv : okEnv env) :
+theorem results_sent_once (p : Params) (env : Env) (items : List Item) (hok : allOk items = true) (henv : okEnv env)
+    (hj : noExitJob items = true) :
     sentOk (run p env items) = taskIds (run p env items) :=
-  Mpire.Proofs.Worker.results_sent_once p env items hok henv
+  Mpire.Proofs.Worker.results_sent_once p env items hok henv hj
 
 /-- Every queue entry the instance takes is acknowledged by exactly one `task_done` — for EVERY script, failures
 included (this is what lets `join_task_queues` return; used by C03). -/
